@@ -66,4 +66,106 @@ typedef void (*kds_convolve_hbd)(const uint16_t *src, int32_t src_stride, uint16
                                  const InterpFilterParams *filter_params_x, const InterpFilterParams *filter_params_y,
                                  const int32_t subpel_x_q4, const int32_t subpel_y_q4, ConvolveParams *conv_params, int32_t bd);
 
+/* ---- blend / masks (kdiff_blend.c) */
+typedef void (*kds_blend_mask)(uint8_t *dst, uint32_t dst_stride, const uint8_t *src0, uint32_t src0_stride, const uint8_t *src1,
+                               uint32_t src1_stride, const uint8_t *mask, uint32_t mask_stride, int w, int h, int subx, int suby);
+typedef void (*kds_blend_mask_hbd)(uint8_t *dst, uint32_t dst_stride, const uint8_t *src0, uint32_t src0_stride, const uint8_t *src1,
+                                   uint32_t src1_stride, const uint8_t *mask, uint32_t mask_stride, int w, int h, int subx, int suby, int bd);
+typedef void (*kds_blend_hv)(uint8_t *dst, uint32_t dst_stride, const uint8_t *src0, uint32_t src0_stride, const uint8_t *src1,
+                             uint32_t src1_stride, const uint8_t *mask, int w, int h);
+typedef void (*kds_blend_hv_hbd)(uint8_t *dst, uint32_t dst_stride, const uint8_t *src0, uint32_t src0_stride, const uint8_t *src1,
+                                 uint32_t src1_stride, const uint8_t *mask, int w, int h, int bd);
+typedef void (*kds_blend_hv_hbd16)(uint16_t *dst, uint32_t dst_stride, const uint16_t *src0, uint32_t src0_stride, const uint16_t *src1,
+                                   uint32_t src1_stride, const uint8_t *mask, int w, int h, int bd);
+typedef void (*kds_blend_d16)(uint8_t *dst, uint32_t dst_stride, const CONV_BUF_TYPE *src0, uint32_t src0_stride, const CONV_BUF_TYPE *src1,
+                              uint32_t src1_stride, const uint8_t *mask, uint32_t mask_stride, int w, int h, int subw, int subh,
+                              ConvolveParams *conv_params);
+typedef void (*kds_blend_d16_hbd)(uint8_t *dst, uint32_t dst_stride, const CONV_BUF_TYPE *src0, uint32_t src0_stride,
+                                  const CONV_BUF_TYPE *src1, uint32_t src1_stride, const uint8_t *mask, uint32_t mask_stride, int w, int h,
+                                  int subx, int suby, ConvolveParams *conv_params, const int bd);
+typedef void (*kds_diffwtd)(uint8_t *mask, DIFFWTD_MASK_TYPE mask_type, const uint8_t *src0, int src0_stride, const uint8_t *src1,
+                            int src1_stride, int h, int w);
+typedef void (*kds_diffwtd_hbd)(uint8_t *mask, DIFFWTD_MASK_TYPE mask_type, const uint8_t *src0, int src0_stride, const uint8_t *src1,
+                                int src1_stride, int h, int w, int bd);
+typedef void (*kds_diffwtd_d16)(uint8_t *mask, DIFFWTD_MASK_TYPE mask_type, const CONV_BUF_TYPE *src0, int src0_stride,
+                                const CONV_BUF_TYPE *src1, int src1_stride, int h, int w, ConvolveParams *conv_params, int bd);
+typedef uint64_t (*kds_wedge_sse)(const int16_t *r1, const int16_t *d, const uint8_t *m, int N);
+typedef int8_t (*kds_wedge_sign)(const int16_t *ds, const uint8_t *m, int N, int64_t limit);
+typedef void (*kds_wedge_delta)(int16_t *d, const int16_t *a, const int16_t *b, int N);
+typedef void (*kds_subtract)(int rows, int cols, int16_t *diff_ptr, ptrdiff_t diff_stride, const uint8_t *src_ptr, ptrdiff_t src_stride,
+                             const uint8_t *pred_ptr, ptrdiff_t pred_stride);
+typedef void (*kds_subtract_hbd)(int rows, int cols, int16_t *diff_ptr, ptrdiff_t diff_stride, const uint8_t *src_ptr, ptrdiff_t src_stride,
+                                 const uint8_t *pred_ptr, ptrdiff_t pred_stride, int bd);
+typedef uint64_t (*kds_sumsq_i16)(const int16_t *src, uint32_t N);
+
+/* ---- loop filter / CDEF (kdiff_lf.c) */
+typedef void (*kds_lpf)(uint8_t *s, int32_t pitch, const uint8_t *blimit, const uint8_t *limit, const uint8_t *thresh);
+typedef void (*kds_lpf_hbd)(uint16_t *s, int32_t pitch, const uint8_t *blimit, const uint8_t *limit, const uint8_t *thresh, int32_t bd);
+typedef int32_t (*kds_cdef_dir)(const uint16_t *img, int32_t stride, int32_t *var, int32_t coeff_shift);
+typedef void (*kds_cdef_filter)(uint8_t *dst8, uint16_t *dst16, int32_t dstride, const uint16_t *in, int32_t pri_strength,
+                                int32_t sec_strength, int32_t dir, int32_t pri_damping, int32_t sec_damping, int32_t bsize,
+                                int32_t coeff_shift);
+typedef uint64_t (*kds_cdef_dist16)(const uint16_t *dst, int32_t dstride, const uint16_t *src, const CdefList *dlist, int32_t cdef_count,
+                                    BlockSize bsize, int32_t coeff_shift, int32_t pli);
+typedef uint64_t (*kds_cdef_dist8)(const uint8_t *dst8, int32_t dstride, const uint8_t *src8, const CdefList *dlist, int32_t cdef_count,
+                                   BlockSize bsize, int32_t coeff_shift, int32_t pli);
+typedef void (*kds_copy_rect8to16)(uint16_t *dst, int32_t dstride, const uint8_t *src, int32_t sstride, int32_t v, int32_t h);
+
+/* ---- picture operators (kdiff_pic.c) */
+typedef void (*kds_residual8)(uint8_t *input, uint32_t input_stride, uint8_t *pred, uint32_t pred_stride, int16_t *residual,
+                              uint32_t residual_stride, uint32_t area_width, uint32_t area_height);
+typedef void (*kds_residual16)(uint16_t *input, uint32_t input_stride, uint16_t *pred, uint32_t pred_stride, int16_t *residual,
+                               uint32_t residual_stride, uint32_t area_width, uint32_t area_height);
+typedef void (*kds_pic_avg)(EbByte src0, uint32_t src0_stride, EbByte src1, uint32_t src1_stride, EbByte dst, uint32_t dst_stride,
+                            uint32_t area_width, uint32_t area_height);
+typedef void (*kds_pic_avg1)(EbByte src0, EbByte src1, EbByte dst, uint32_t area_width);
+typedef uint64_t (*kds_sfd)(uint8_t *input, uint32_t input_offset, uint32_t input_stride, uint8_t *recon, int32_t recon_offset,
+                            uint32_t recon_stride, uint32_t area_width, uint32_t area_height);
+typedef void (*kds_fd32)(int32_t *coeff, uint32_t coeff_stride, int32_t *recon_coeff, uint32_t recon_coeff_stride,
+                         uint64_t distortion_result[DIST_CALC_TOTAL], uint32_t area_width, uint32_t area_height);
+typedef void (*kds_fd32z)(int32_t *coeff, uint32_t coeff_stride, uint64_t distortion_result[DIST_CALC_TOTAL], uint32_t area_width,
+                          uint32_t area_height);
+typedef int64_t (*kds_frame_error)(const uint8_t *const ref, int stride, const uint8_t *const dst, int p_width, int p_height, int p_stride);
+typedef void (*kds_unpack_avg)(uint16_t *ref16_l0, uint32_t ref_l0_stride, uint16_t *ref16_l1, uint32_t ref_l1_stride, uint8_t *dst_ptr,
+                               uint32_t dst_stride, uint32_t width, uint32_t height);
+typedef void (*kds_unpack_avg_safe)(uint16_t *ref16_l0, uint32_t ref_l0_stride, uint16_t *ref16_l1, uint32_t ref_l1_stride,
+                                    uint8_t *dst_ptr, uint32_t dst_stride, EbBool sub_pred, uint32_t width, uint32_t height);
+typedef void (*kds_unpack8)(uint16_t *in16_bit_buffer, uint32_t in_stride, uint8_t *out8_bit_buffer, uint32_t out8_stride,
+                            uint32_t width, uint32_t height);
+typedef void (*kds_msb_unpack)(uint16_t *in16_bit_buffer, uint32_t in_stride, uint8_t *out8_bit_buffer, uint8_t *outn_bit_buffer,
+                               uint32_t out8_stride, uint32_t outn_stride, uint32_t width, uint32_t height);
+typedef void (*kds_msb_pack)(uint8_t *in8_bit_buffer, uint32_t in8_stride, uint8_t *inn_bit_buffer, uint16_t *out16_bit_buffer,
+                             uint32_t inn_stride, uint32_t out_stride, uint32_t width, uint32_t height);
+typedef void (*kds_c_pack)(const uint8_t *inn_bit_buffer, uint32_t inn_stride, uint8_t *in_compn_bit_buffer, uint32_t out_stride,
+                           uint8_t *local_cache, uint32_t width, uint32_t height);
+typedef void (*kds_cvt8to16)(uint8_t *src, uint32_t src_stride, uint16_t *dst, uint32_t dst_stride, uint32_t width, uint32_t height);
+typedef void (*kds_cvt16to8)(uint16_t *src, uint32_t src_stride, uint8_t *dst, uint32_t dst_stride, uint32_t width, uint32_t height);
+typedef void (*kds_memcpy)(void *dst_ptr, void const *src_ptr, size_t size);
+typedef void (*kds_init_buf32)(uint32_t *pointer, uint32_t count128, uint32_t count32, uint32_t value);
+typedef uint32_t (*kds_log2f)(uint32_t x);
+typedef uint64_t (*kds_mean8x8)(uint8_t *input_samples, uint32_t input_stride, uint32_t input_area_width, uint32_t input_area_height);
+typedef uint64_t (*kds_submean8x8)(uint8_t *input_samples, uint16_t input_stride);
+typedef void (*kds_var4x8x8)(uint8_t *input_samples, uint16_t input_stride, uint64_t *mean_of8x8_blocks,
+                             uint64_t *mean_of_squared8x8_blocks);
+typedef int (*kds_haar)(uint8_t *input, int stride, int hbd);
+typedef void (*kds_grad_hist)(const uint8_t *src, int src_stride, int rows, int cols, uint64_t *hist);
+
+/* ---- quantize / entropy helpers (kdiff_quant.c) */
+typedef void (*kds_quant_fp)(const TranLow *coeff_ptr, intptr_t n_coeffs, const int16_t *zbin_ptr, const int16_t *round_ptr,
+                             const int16_t *quant_ptr, const int16_t *quant_shift_ptr, TranLow *qcoeff_ptr, TranLow *dqcoeff_ptr,
+                             const int16_t *dequant_ptr, uint16_t *eob_ptr, const int16_t *scan, const int16_t *iscan);
+typedef void (*kds_quant_fp_hbd)(const TranLow *coeff_ptr, intptr_t n_coeffs, const int16_t *zbin_ptr, const int16_t *round_ptr,
+                                 const int16_t *quant_ptr, const int16_t *quant_shift_ptr, TranLow *qcoeff_ptr, TranLow *dqcoeff_ptr,
+                                 const int16_t *dequant_ptr, uint16_t *eob_ptr, const int16_t *scan, const int16_t *iscan,
+                                 int16_t log_scale);
+typedef void (*kds_quant_b)(const TranLow *coeff_ptr, intptr_t n_coeffs, const int16_t *zbin_ptr, const int16_t *round_ptr,
+                            const int16_t *quant_ptr, const int16_t *quant_shift_ptr, TranLow *qcoeff_ptr, TranLow *dqcoeff_ptr,
+                            const int16_t *dequant_ptr, uint16_t *eob_ptr, const int16_t *scan, const int16_t *iscan,
+                            const QmVal *qm_ptr, const QmVal *iqm_ptr, const int32_t log_scale);
+typedef void (*kds_txb_init)(const TranLow *const coeff, const int32_t width, const int32_t height, uint8_t *const levels);
+typedef void (*kds_nz_map)(const uint8_t *const levels, const int16_t *const scan, const uint16_t eob, const TxSize tx_size,
+                           const TxClass tx_class, int8_t *const coeff_contexts);
+typedef int (*kds_satd)(const TranLow *coeff, int length);
+typedef int64_t (*kds_block_error)(const TranLow *coeff, const TranLow *dqcoeff, intptr_t block_size, int64_t *ssz);
+
 #endif
